@@ -620,6 +620,94 @@ fn cmd_sweep(a: &Args) {
     }
 }
 
+/// Main-thread sweep: the MAIN thread of this process (its name, its stack, its thread id
+/// are unlike those of any spawned thread) lexes the whole catalogue in a seeded order;
+/// every result must equal the clean-room reference, which was computed on spawned threads.
+/// With `--upto N --expect-id ID` it replays a recorded failure: same order, stop after N.
+fn cmd_mainsweep(a: &Args) {
+    let cat = load_catalogue(a);
+    let refs = load_refs(a.req("ref"));
+    let exclude: std::collections::HashSet<String> = a
+        .get("exclude")
+        .and_then(|f| std::fs::read_to_string(f).ok())
+        .map(|t| t.lines().map(|l| l.trim().to_string()).filter(|l| !l.is_empty()).collect())
+        .unwrap_or_default();
+    let base_seed = a.u64("seed", 1);
+    let perm = a.u64("first-perm", 0);
+    let upto = a.u64("upto", u64::MAX);
+    let build = build_name(a);
+    let replay_dir = PathBuf::from(a.get("replay-dir").unwrap_or("/verif/replays"));
+    let mut rng = util::Rng::derive(base_seed, 0x3A19 ^ (perm << 8));
+    let mut order: Vec<usize> = (0..cat.sources.len())
+        .filter(|&i| !exclude.contains(&cat.sources[i].id) && cat.sources[i].text.len() <= 96 * 1024)
+        .collect();
+    for i in (1..order.len()).rev() {
+        let j = rng.below(i as u64 + 1) as usize;
+        order.swap(i, j);
+    }
+    let t0 = Instant::now();
+    let mut calls = 0u64;
+    for (n, &i) in order.iter().enumerate() {
+        if n as u64 >= upto {
+            break;
+        }
+        let s = &cat.sources[i];
+        reference::install_budget_callback(s.text.len());
+        let (o, res) = outcome::run_lex(&s.text, &mut || {});
+        drop(res);
+        calls += 1;
+        let key = o.key();
+        let expect = refs.get(&s.id).cloned().unwrap_or_else(|| "?".into());
+        if key != expect {
+            // alone on the main thread of a fresh process too? then it is the thread, not history
+            let alone = a.get("upto").is_none() && {
+                let exe = std::env::current_exe().ok();
+                exe.and_then(|e| {
+                    std::process::Command::new(e)
+                        .args(["mainsweep", "--build", &build, "--tier", a.get("tier").unwrap_or("quick"), "--catalogue", a.get("catalogue").unwrap_or("/verif/catalogue"), "--ref", a.req("ref"), "--seed", &base_seed.to_string(), "--first-perm", &perm.to_string(), "--only", &s.id])
+                        .output()
+                        .ok()
+                })
+                .map_or(false, |o| String::from_utf8_lossy(&o.stdout).contains("mainsweep-violation"))
+            };
+            let _ = std::fs::create_dir_all(&replay_dir);
+            let path = replay_dir.join(format!("C19-mainthread-{build}-{base_seed}-{perm}.json"));
+            let mut j = Json::obj();
+            j.set("kind", Json::s("main-thread-sweep"));
+            j.set("property", Json::s("C19"));
+            j.set("build", Json::s(&build));
+            j.set("tier", Json::s(a.get("tier").unwrap_or("quick")));
+            j.set("verif_seed", Json::u(base_seed));
+            j.set("perm", Json::u(perm));
+            j.set("position", Json::u(n as u64));
+            j.set("source_id", Json::s(&s.id));
+            j.set("source_text", Json::s(&s.text));
+            j.set("expected", Json::s(&expect));
+            j.set("got", Json::s(&key));
+            j.set("alone_on_main_thread_of_fresh_process_also_fails", Json::Bool(alone));
+            j.set("exclude", Json::Arr(exclude.iter().map(|x| Json::s(x)).collect()));
+            let _ = std::fs::write(&path, j.to_string_pretty());
+            println!("mainsweep-violation\t{perm}\t{}\t{}\t{}", s.id, if alone { "thread" } else { "history" }, path.display());
+            println!("violation\t{perm}\tmain-thread:{}\t{}", if alone { "thread-identity" } else { "history" }, path.display());
+            std::process::exit(EXIT_VIOLATION);
+        }
+    }
+    println!("mainsweep build={build} perm={perm} calls={calls} violations=0 wall_s={:.2}", t0.elapsed().as_secs_f64());
+}
+
+/// `mainsweep --only ID`: lex one catalogue source on the main thread of this (fresh) process.
+fn cmd_mainsweep_only(a: &Args, id: &str) {
+    let cat = load_catalogue(a);
+    let refs = load_refs(a.req("ref"));
+    if let Some(s) = cat.sources.iter().find(|s| s.id == id) {
+        reference::install_budget_callback(s.text.len());
+        let (o, _res) = outcome::run_lex(&s.text, &mut || {});
+        if Some(&o.key()) != refs.get(&s.id) {
+            println!("mainsweep-violation\t0\t{}\tthread\t-", s.id);
+        }
+    }
+}
+
 /// Batch clean-room evaluation: input lines `tag<TAB>escaped text`, output `tag<TAB>key`.
 fn cmd_keys(a: &Args) {
     let text = std::fs::read_to_string(a.req("file")).unwrap_or_else(|e| die(&e.to_string()));
@@ -650,6 +738,10 @@ fn main() {
         Some("keys") => cmd_keys(&a),
         Some("sweep") => cmd_sweep(&a),
         Some("eval") => cmd_eval(&a),
+        Some("mainsweep") => match a.get("only") {
+            Some(id) => cmd_mainsweep_only(&a, &id.to_string()),
+            None => cmd_mainsweep(&a),
+        },
         _ => {
             eprintln!("usage: c19sim ref|sim|replay|lexone|catalogue ...");
             std::process::exit(EXIT_HARNESS);
